@@ -556,7 +556,9 @@ pub fn expect(ctx: &Ctx, rep: &mut Report) {
             if let Some(sel) = node.dfs().skip(1).find(|d| d.is_named()) {
               let selector = sel.kind().to_string();
               if Pattern::contextual(&cut.pattern, &selector, lang).is_ok() {
+                // with and without an explicit strictness (the selector path must honour it too)
                 qs.push(json!({"pattern": cut.pattern, "selector": selector}));
+                qs.push(json!({"pattern": cut.pattern, "selector": selector, "strictness": ALL_S[(fi + made + 2) % 5].name()}));
               }
             }
           }
